@@ -39,6 +39,16 @@ from pyscf.dft.gen_grid import (
 
 from ciderpress.dft.grids_indexer import AtomicGridsIndexer, libcider
 
+try:
+    # Newer PySCF sizes the atomic grid of a ghost atom by its element
+    from pyscf.dft.gen_grid import _std_symbol_without_ghost, elements_proton
+
+    def _grid_charge(symb):
+        return elements_proton(_std_symbol_without_ghost(symb))
+
+except ImportError:  # older PySCF used gto.charge (0 for ghost atoms)
+    _grid_charge = gto.charge
+
 CIDER_DEFAULT_LMAX = 10
 
 
@@ -213,6 +223,8 @@ def gen_atomic_grids_cider(
         atom_grid = {}
     if isinstance(atom_grid, (list, tuple)):
         atom_grid = dict([(mol.atom_symbol(ia), atom_grid) for ia in range(mol.natm)])
+    # same conventions as pyscf.dft.gen_grid.gen_atomic_grids
+    default = atom_grid.get("default", None)
     atom_grids_tab = {}
     lmax_tab = {}
     rad_loc_tab = {}
@@ -224,9 +236,10 @@ def gen_atomic_grids_cider(
         symb = mol.atom_symbol(ia)
 
         if symb not in atom_grids_tab:
-            chg = gto.charge(symb)
-            if symb in atom_grid:
-                n_rad, n_ang = atom_grid[symb]
+            chg = _grid_charge(symb)
+            atom_config = atom_grid.get(symb, default)
+            if atom_config is not None:
+                n_rad, n_ang = atom_config
                 if n_ang not in LEBEDEV_NGRID:
                     raise ValueError("Unsupported angular grids %d" % n_ang)
             else:
